@@ -218,7 +218,46 @@ reg("C20","model_checking",
 ALL = [f"C{i:02d}" for i in range(1, 21)]
 
 
+# enlargements of the enumerated spaces made after the first complete pass (DESIGN.md 11.2b); appended to the texts above
+EXTENSIONS = {
+    "C01": " Also: ONE Molecule object walked along bond-stretch paths with orbital re-ordering and through every sequence of "
+    "states of interest {S0,S1,S2}^3 (differential twin: a fresh object at each point; central difference of fresh energies).",
+    "C02": " Also: a finite pair cutoff configuration, and ONE Molecule object carried along words over the generators "
+    "{C4(z), C3(111)} of the octahedral group (coordinates replaced in place): scalars invariant, forces co-rotating.",
+    "C03": " Also: (D) every iteration cap 6..30 (4..60 thorough) on two-molecule batches under every solver, so that the cap "
+    "falls between the members' iteration counts; (E) open-shell batches whose padded member is an anion or radical anion, in "
+    "every position.",
+    "C04": " Also (leaves): the SP2 tolerance axis 1e-2..1e-10 (inside and outside the supported float64 window) and cold "
+    "solves inside a batch with a molecule of another composition (UHF singlet, adaptive, Pulay/SP2).",
+    "C05": " Also: N2 in the alphabet (orbital count of CH4, other composition), all six orders of mixed triples, one active "
+    "state per batch row with the analytical excited gradient, and section `uhf`: every ordered pair of the alphabet + {CH3, O2} "
+    "under UHF, padded and unpadded.",
+    "C06": " Also: the unit-system twin (bohr input with length_conversion_factor = 1).",
+    "C07": " Also: forward of a differentiable job / unrelated calls / its backward, in every interleaving.",
+    "C08": " Also: user velocities with COM removal, molid subsets and permutations, and reversal to 1e-11 with density reuse off.",
+    "C09": " Also: idempotency of a repeated XL evaluation, batch transparency of the XL/KSA functional incl. entropy up to "
+    "T_el 3e4 K, the same object moved to a new geometry, and a hot (T_el 13000 K) KSA family for the dt^2 scaling of the free energy.",
+    "C10": " Two further oracles on every recovered image: the RNG state at each resumed step equals that of the uninterrupted "
+    "run (engines that draw random numbers), and a checkpoint once published never disappears later in the same history.",
+    "C12": " Also: (a') the same driver object initialised for another equally padded batch first; (d) the real "
+    "SurfaceHoppingDynamics object with a damping time and real CIS electronic structure: one-hot identification of the thermostat "
+    "it applies, its n_dof against that thermostat's stationary state, two noise draws per real integrator step.",
+    "C13": " Also: seeding of the thermostat noise when velocities are supplied by the user.",
+    "C14": " Also: calls mixing ground- and excited-state rows, and the charges published by the XL path after a move.",
+    "C15": " The job pool also contains learned-parameter lists, a job refused inside the SCF loop, the same method/elements with "
+    "another parameter directory, and a loose threshold shared by an XL-BOMD/Langevin run and a single point through the caller's "
+    "own dictionary (MD jobs receive the caller's dictionary itself).",
+    "C16": " Also: the same object evaluated again (scripted positive and negative phase of the guess), CIS and RPA.",
+    "C17": " Also: a coupling spike between two populated non-active states.",
+    "C18": " Also: axis-aligned layouts (x, y, z, -z), a PM6 frame sub-lattice, active states given as tensors, the energy-only path.",
+    "C19": " Also: one driver object over a dimer scan that crosses a finite pair cutoff in both directions.",
+}
+
+
 def build():
+    for pid, t in EXTENSIONS.items():
+        if not CHECKS[pid]["text"].endswith(t):
+            CHECKS[pid]["text"] += t
     checks = []
     for pid in ALL:
         if pid not in CHECKS:
